@@ -2,6 +2,8 @@ package bulking
 
 import (
 	"encoding/json"
+	"errors"
+	"io"
 	"net/http"
 )
 
@@ -33,7 +35,10 @@ func (h *JSONStreamBulkHandler) GetChannels(_ http.ResponseWriter, r *http.Reque
 				nextElement := &BulkElement{}
 				err := dec.Decode(nextElement)
 				if err != nil {
-					h.err = err
+					// io.EOF is the normal end of the stream, not a decoding error
+					if !errors.Is(err, io.EOF) {
+						h.err = err
+					}
 					return
 				}
 
